@@ -188,7 +188,10 @@ def check(ctx, rep):
     # is_unit_char; a narrower "unit start" predicate leaves out the symbols that begin with `/` or `_`)
     start_cls, start_fn = t, "is_unit_char"
     # (evaluated on the program as compiled: a predicate that is new to the rules would otherwise be spliced into parse_number)
-    raw = mir.load(ctx.facts_dir, inline=False) if getattr(ctx, "facts_dir", None) else prog
+    try:
+        raw = mir.load(ctx.facts_dir, inline=False) if getattr(ctx, "facts_dir", None) else prog
+    except OSError:
+        raw = prog
     pn0 = raw.get("haystack::encoding::zinc::decode::scalar::number::parse_number")
     if pn0 is not None:
         for bi0, tt0 in pn0.calls():
